@@ -306,4 +306,98 @@ example : realSize [(.wpkh, 72), (.wsh 92 false, 71), (.wsh 126 false, 72), (.sh
 example : holds [(.wpkh, 72)] (some 109) (some 110) = false := by decide
 example : holds [(.wpkh, 72)] none (some 110) = false := by decide
 
+/-! ### whole-flow shapes (pkg/tbtcpg estimators vs pkg/tbtc assemblers) -/
+
+theorem anyWit_cons_le (i : TxIn) (is : List TxIn) :
+    (if anyWit is then 2 + insWit is else 0) ≤ (if anyWit (i :: is) then 2 + insWit (i :: is) else 0) := by
+  simp only [anyWit, insWit]
+  by_cases h1 : anyWit is = true
+  · simp only [h1, Bool.or_true, if_true]; omega
+  · simp only [h1]; exact Nat.zero_le _
+
+/-- an extra input never makes the transaction smaller. -/
+theorem vsize_cons_in_le (i : TxIn) (is : List TxIn) (o : List Nat) :
+    vsize ⟨is, o⟩ ≤ vsize ⟨i :: is, o⟩ := by
+  have hv : varIntSize is.length ≤ varIntSize (i :: is).length := varIntSize_mono (by simp)
+  have hw := anyWit_cons_le i is
+  unfold vsize
+  apply Nat.div_le_div_right
+  simp only [totalSize, baseSize, insBase] at *
+  omega
+
+/-- an extra output never makes the transaction smaller. -/
+theorem vsize_cons_out_le (is : List TxIn) (l : Nat) (o : List Nat) :
+    vsize ⟨is, o⟩ ≤ vsize ⟨is, l :: o⟩ := by
+  have hv : varIntSize o.length ≤ varIntSize (l :: o).length := varIntSize_mono (by simp)
+  unfold vsize
+  apply Nat.div_le_div_right
+  simp only [totalSize, baseSize, outsSize] at *
+  split <;> omega
+
+theorem dep_fits : depScriptLen ≤ depScriptMax ∧ depScriptExtraLen ≤ depScriptMax := by decide
+
+theorem depIns_le (deps : List (Bool × Nat)) (h : ∀ d ∈ deps, d.2 ≤ sigPh) :
+    insLe ((deps.map depIn).map (fun p => realIn p.1 p.2))
+      ((List.replicate deps.length (InKind.wsh depScriptMax false)).map estIn) := by
+  induction deps with
+  | nil => trivial
+  | cons d ds ih =>
+    refine ⟨?_, ih (fun q hq => h q (by simp [hq]))⟩
+    have hd := h d (by simp)
+    refine ⟨Nat.le_refl _, hd, pk_fits, ?_, trivial⟩
+    cases d.1
+    · exact dep_fits.1
+    · exact dep_fits.2
+
+/-- deposit sweep: the fee estimate's size (main UTXO + n worst-case P2WSH deposits) covers every
+    real sweep of n P2WSH deposits (plain or extra-data scripts), with or without a main UTXO,
+    for all signature lengths up to the placeholder. -/
+theorem sweep_estimate_covers (main : Option Nat) (deps : List (Bool × Nat))
+    (hm : ∀ s, main = some s → s ≤ sigPh) (hd : ∀ d ∈ deps, d.2 ≤ sigPh) :
+    sweepReal main deps ≤ sweepEst deps.length := by
+  unfold sweepReal sweepEst realShape estShape
+  have hdeps := depIns_le deps hd
+  cases main with
+  | none =>
+    simp only [optSig, List.nil_append, List.map_cons]
+    refine Nat.le_trans (vsize_monotone _ ⟨_, _⟩ hdeps (leList_refl _)) ?_
+    exact vsize_cons_in_le _ _ _
+  | some s =>
+    simp only [optSig, List.cons_append, List.nil_append, List.map_cons]
+    apply vsize_monotone
+    · exact ⟨⟨Nat.le_refl _, hm s rfl, pk_fits, trivial⟩, hdeps⟩
+    · exact leList_refl _
+
+/-- redemption: the estimate always counts the change output; the real transaction has it only
+    when the change is positive. -/
+theorem redeem_estimate_covers (sig : Nat) (change : Bool) (outs : List OutKind) (hs : sig ≤ sigPh) :
+    redeemReal sig change outs ≤ redeemEst outs := by
+  unfold redeemReal redeemEst realShape estShape
+  have hin : insLe ([(InKind.wpkh, sig)].map (fun p => realIn p.1 p.2)) ([InKind.wpkh].map estIn) :=
+    ⟨⟨Nat.le_refl _, hs, pk_fits, trivial⟩, trivial⟩
+  cases change with
+  | true => exact vsize_monotone _ _ hin (leList_refl _)
+  | false =>
+    simp only [Bool.false_eq_true, if_false, List.map_cons]
+    refine Nat.le_trans (vsize_monotone _ ⟨_, _⟩ hin (leList_refl _)) ?_
+    exact vsize_cons_out_le _ _ _
+
+theorem move_estimate_covers (sig n : Nat) (hs : sig ≤ sigPh) : moveReal sig n ≤ moveEst n := by
+  unfold moveReal moveEst realShape estShape
+  exact vsize_monotone _ _ ⟨⟨Nat.le_refl _, hs, pk_fits, trivial⟩, trivial⟩ (leList_refl _)
+
+theorem msweep_estimate_covers (moved : Nat) (main : Option Nat) (h1 : moved ≤ sigPh)
+    (h2 : ∀ s, main = some s → s ≤ sigPh) : msweepReal moved main ≤ msweepEst main.isSome := by
+  unfold msweepReal msweepEst realShape estShape
+  cases main with
+  | none =>
+    exact vsize_monotone _ _ ⟨⟨Nat.le_refl _, h1, pk_fits, trivial⟩, trivial⟩ (leList_refl _)
+  | some s =>
+    exact vsize_monotone _ _
+      ⟨⟨Nat.le_refl _, h1, pk_fits, trivial⟩, ⟨Nat.le_refl _, h2 s rfl, pk_fits, trivial⟩, trivial⟩
+      (leList_refl _)
+
+example : sweepEst 3 = 409 ∧ sweepReal (some 72) [(true, 72), (true, 72), (true, 72)] = 409
+    ∧ sweepReal none [(false, 71), (true, 72), (false, 70)] = 323 := by decide
+
 end KeepVerif.C30
